@@ -30,7 +30,7 @@ class ExcInstance:
 
 
 class Frame:
-    __slots__ = ("locals", "func", "module", "cls", "parent")
+    __slots__ = ("locals", "func", "module", "cls", "parent", "spec_alias")
 
     def __init__(self, func, module, cls=None, parent=None):
         self.locals = {}
@@ -38,6 +38,7 @@ class Frame:
         self.module = module
         self.cls = cls
         self.parent = parent
+        self.spec_alias = None      # loop-spec parameter -> actual local (pyvc/loops.py, renamed locals)
 
 
 class Interp:
